@@ -7,7 +7,10 @@ Safe == TypeOK /\ Routed /\ TerminalLocal /\ NothingAfterTerminal /\ SharedOnlyI
 \* (Spec = everything interleaves with everything; SpecQ is what makes three subscribers tractable.)
 SrvEnv ==
   \/ \E c \in Conn : SrvUpgrade(c) \/ SrvReject(c) \/ SrvAck(c) \/ SrvInitFail(c) \/ SrvClose(c, 0) \/ SrvMute(c)
-  \/ \E c \in Conn, s \in Subs, k \in Kinds : SrvSend(c, s, k, IF k = "next" THEN "d" ELSE "-")
+                     \/ SrvHoldClose(c) \/ SrvRelease(c)
+  \/ \E c \in Conn, s \in Subs, k \in Kinds : SrvSend(c, s, k, IF k = "next" THEN "d" ELSE "-", FALSE, None)
+  \/ \E c \in Conn, s \in Subs : SrvSend(c, s, "next", "d", TRUE, None)
+  \/ \E c \in Conn, s, t \in Subs : SrvSend(c, s, "next", "d", FALSE, t)
 NextQ == \/ \E s \in Subs : Call(s) \/ Cancel(s)
          \/ Quiescent /\ SrvEnv
          \/ \E s \in Subs : InternalSub(s)
